@@ -168,10 +168,31 @@ def props_report(prop: str):
 # Kernel-evaluated correspondence
 
 
+_STR_RE = re.compile(r'"(?:[^"]|"")*"')
+
+
+def _intern_strings(terms):
+    """Elaborating a Coq string literal costs ~10 constructor nodes per character; a shard
+    repeats the same few hundred names thousands of times.  Bind every distinct literal to a
+    short identifier once and use the identifier inside the case terms."""
+    table = {}
+
+    def sub(m):
+        lit = m.group(0)
+        if lit not in table:
+            table[lit] = "s%d_" % len(table)
+        return table[lit]
+
+    new_terms = [_STR_RE.sub(sub, t) for t in terms]
+    defs = "".join("Definition %s := %s.\n" % (ident, lit) for lit, ident in table.items())
+    return defs, new_terms
+
+
 def _shard_text(header, case_type, check, terms):
+    defs, terms = _intern_strings(terms)
     return (
         header + "\nFrom Coq Require Import List String ZArith.\nImport ListNotations.\n"
-        "Open Scope string_scope.\n"
+        "Open Scope string_scope.\n" + defs +
         "Definition cases : list %s :=\n  [ %s ].\n" % (case_type, "\n  ; ".join(terms))
         + "Definition bad := Eval vm_compute in mismatches %s 0 cases.\n" % check
         + "Print bad.\n"
